@@ -707,6 +707,88 @@ pub fn simple_lib(r: &mut Rng) -> Dictionary {
     d
 }
 
+/// a legal sequence of point types (C11: `line` takes no off-curves, `curve` at most two, `qcurve` any number; a closed
+/// contour is cyclic; an open one starts with `move` and may not end in off-curves)
+pub fn contour_types(r: &mut Rng) -> Vec<PointType> {
+    use PointType::*;
+    let segment = |r: &mut Rng, out: &mut Vec<PointType>| match r.below(7) {
+        0 | 1 => out.push(Line),
+        2 => {
+            // cubic: 0, 1 or 2 off-curves
+            for _ in 0..r.below(3) {
+                out.push(OffCurve);
+            }
+            out.push(Curve);
+        }
+        3 => {
+            out.push(OffCurve);
+            out.push(OffCurve);
+            out.push(Curve);
+        }
+        _ => {
+            // quadratic: 0..6 off-curves
+            for _ in 0..r.below(7) {
+                out.push(OffCurve);
+            }
+            out.push(QCurve);
+        }
+    };
+    match r.below(10) {
+        // all off-curve (closed, implied on-curve points)
+        0 => (0..1 + r.below(5)).map(|_| OffCurve).collect(),
+        // open
+        1 | 2 => {
+            let mut v = vec![Move];
+            for _ in 0..r.below(4) {
+                segment(r, &mut v);
+            }
+            v
+        }
+        // lines only (the common case in the other generators)
+        3 => (0..1 + r.below(5)).map(|_| Line).collect(),
+        // closed: 1..4 segments, then every rotation of the cyclic list is equally likely
+        _ => {
+            let mut v = Vec::new();
+            for _ in 0..1 + r.below(4) {
+                segment(r, &mut v);
+            }
+            let k = r.below(v.len());
+            v.rotate_left(k);
+            v
+        }
+    }
+}
+
+/// counts of the point types and the longest off-curve run that straddles the seam of a closed contour
+pub fn point_stats<'a>(glyphs: impl Iterator<Item = &'a Glyph>) -> String {
+    let (mut m, mut l, mut o, mut c, mut q, mut seam, mut alloff) = (0, 0, 0, 0, 0, 0usize, 0);
+    for g in glyphs {
+        for ct in &g.contours {
+            for p in &ct.points {
+                match p.typ {
+                    PointType::Move => m += 1,
+                    PointType::Line => l += 1,
+                    PointType::OffCurve => o += 1,
+                    PointType::Curve => c += 1,
+                    PointType::QCurve => q += 1,
+                }
+            }
+            let n = ct.points.len();
+            let lead = ct.points.iter().take_while(|p| p.typ == PointType::OffCurve).count();
+            if n > 0 && lead == n {
+                alloff += 1;
+            } else if n > 0 && ct.points[0].typ != PointType::Move {
+                let trail = ct.points.iter().rev().take_while(|p| p.typ == PointType::OffCurve).count();
+                if trail > 0 || lead > 0 {
+                    // the run that the wrap-around loop of end_path has to count
+                    seam = seam.max(lead + trail);
+                }
+            }
+        }
+    }
+    format!("m{}.l{}.o{}.c{}.q{}.s{}.a{}", m, l, o, c, q, seam, alloff)
+}
+
 pub fn mk_glyph(name: &str, tok: &str) -> Glyph {
     let seed: u64 = tok.parse().unwrap();
     let mut r = Rng::new(seed ^ 0x61);
@@ -772,25 +854,12 @@ pub fn mk_glyph(name: &str, tok: &str) -> Glyph {
         g.components.push(Component::new(Name::new(&xname(&mut r, &["a", "B", "c.alt"])).unwrap(), t, fresh(&mut r, false)));
     }
     for _ in 0..r.below(3) {
-        let closed = r.chance(2, 3);
-        let n = 1 + r.below(5);
+        // the point-type sequence: segments (k off-curves + an on-curve point) of every legal kind, rotated so that an
+        // off-curve run straddles the seam of a closed contour in every possible way (builder.rs end_path wraps
+        // around); all-off-curve contours; open contours start with a move and end on an on-curve point
+        let types = contour_types(&mut r);
         let mut pts = Vec::new();
-        // one contour in three is a curve shape: cubic (two off-curves) or quadratic (one off-curve) segments
-        let shape: Vec<PointType> = match r.below(6) {
-            0 => vec![PointType::Line, PointType::OffCurve, PointType::OffCurve, PointType::Curve, PointType::Line],
-            1 => vec![PointType::OffCurve, PointType::QCurve, PointType::OffCurve, PointType::OffCurve, PointType::QCurve],
-            _ => Vec::new(),
-        };
-        let n = if shape.is_empty() { n } else { shape.len() };
-        let closed = closed || !shape.is_empty();
-        for i in 0..n {
-            let typ = if !shape.is_empty() {
-                shape[i].clone()
-            } else if i == 0 && !closed {
-                PointType::Move
-            } else {
-                PointType::Line
-            };
+        for typ in types {
             let withlib = r.chance(1, 8);
             let mut p = ContourPoint::new(
                 plain_num(&mut r),
@@ -1306,7 +1375,10 @@ pub fn observe(toks: &[&str], scratch: &Path) -> String {
     let dst = scratch.join("c01.ufo");
     prepare_target(&dst, &spec.target);
     let opts = options(&spec);
-    let mut out = vec![format!("pre={}", paths(&font))];
+    let mut out = vec![
+        format!("pre={}", paths(&font)),
+        format!("pt={}", point_stats(font.layers.iter().flat_map(|l| l.iter()))),
+    ];
     let save = match guarded(|| font.save_with_options(&dst, &opts)) {
         Ok(Ok(())) => "ok".to_string(),
         Ok(Err(e)) => format!("err:{}", variant(&format!("{:?}", e))),
